@@ -41,6 +41,7 @@ class Types:
         except Exception as e:
             raise AnalysisError(f"typed layer: unreadable cache {path}: {e}")
         self.errors = data.get("errors", 0)
+        self.diagnostics: List[str] = data.get("diagnostics", [])
         self.tab: Dict[str, Dict[str, dict]] = data["modules"]
         missing = [m for m in prog.modules if m not in self.tab]
         if missing:
